@@ -353,6 +353,24 @@ add_buffer_protocol (boost::python::class_<ArrayT> &classObj)
 }
 
 
+namespace {
+
+//  Classify a struct-module format character: signed integer, unsigned
+// integer, floating point; 0 for anything else.
+int
+formatKind (char c)
+{
+    switch (c)
+    {
+      case 'b': case 'h': case 'i': case 'l': case 'q': case 'n': return 1;
+      case 'B': case 'H': case 'I': case 'L': case 'Q': case 'N': return 2;
+      case 'e': case 'f': case 'd':                               return 3;
+      default:                                                    return 0;
+    }
+}
+
+} // anonymous
+
 template <class ArrayT>
 ArrayT *
 fixedArrayFromBuffer (PyObject *obj)
@@ -379,8 +397,33 @@ fixedArrayFromBuffer (PyObject *obj)
         throw std::invalid_argument ("Unsupported buffer type");
     }
 
+    //  The buffer must describe exactly shape[0] elements of this array's
+    // type: same kind and size of item, the expected number of dimensions
+    // and row width, stored contiguously.  Anything else would make the
+    // memcpy below read or write out of bounds.
+    using T = typename ArrayT::BaseType;
+    const char *srcFormat = view.format;
+    if (srcFormat[0] == '@' || srcFormat[0] == '<')
+        srcFormat++;
+    const bool compatible =
+        formatKind (srcFormat[0]) != 0 &&
+        formatKind (srcFormat[0]) == formatKind (PyFormat<T>()[0]) &&
+        srcFormat[1] == '\0' &&
+        view.itemsize == FixedArrayAtomicSize<T>::value &&
+        view.ndim == FixedArrayDimension<T>::value &&
+        view.shape != nullptr &&
+        (view.ndim < 2 || view.shape[1] == FixedArrayWidth<T>::value) &&
+        view.len == view.shape[0] * Py_ssize_t (sizeof(T)) &&
+        PyBuffer_IsContiguous (&view, 'C');
+    if (!compatible)
+    {
+        PyBuffer_Release(&view);
+        throw std::invalid_argument ("Buffer type, shape or size does not match the array type");
+    }
+
     ArrayT *array = new ArrayT (view.shape[0], PyImath::UNINITIALIZED);
-    memcpy (reinterpret_cast<void*>(&array->direct_index(0)), view.buf, view.len);
+    if (view.len > 0)
+        memcpy (reinterpret_cast<void*>(&array->direct_index(0)), view.buf, view.len);
     PyBuffer_Release(&view);
 
     return array;
